@@ -1,10 +1,11 @@
 (* C06 driver.
-   (journal ID (bucket HEX|-) (xact XSTATE (post ACCTHEX KIND AMT COST LOT PSTATE ASSIGNED) ...) ...)
+   (journal ID (bucket HEX|-) (xact XSTATE (post ACCTHEX KIND AMT COST LOT PSTATE ASSIGNED COMPUTED) ...) ...)
      XSTATE, PSTATE = U | C | P (PSTATE is the mark written on the posting line)
      AMT  = - | (NUM DEN PREC KEYHEX)
      COST = - | (u|t VIRT NUM DEN PREC SYMHEX)
      LOT  = - | (NUM DEN PREC SYMHEX)
      ASSIGNED = - | (NUM DEN PREC KEYHEX)
+     COMPUTED = 1 when AMT is the amount ledger computes for a balance assignment (not written: teaches the pool nothing)
    -> per transaction i
         "ID i X OK rows" | "ID i X IGNORED" | "ID i X ERR class"    finalize of the journal as written
         "ID i L line" ...                                          print's decisions, one per printed posting
@@ -18,7 +19,7 @@
    (layout ID (NAMELEN AMTLEN CALCULATED) ...) -> "ID W width blanks ..." (Model/Print.v account_width, sep_blanks) *)
 let err_name = function
   | EUnbalanced -> "Unbalanced" | ETwoNulls -> "TwoNulls" | ENullLeft -> "NullLeft"
-  | ECostSameComm -> "CostSameComm" | EDivZero -> "DivZero" | EDiffComm -> "DiffComm"
+  | ECostSameComm -> "CostSameComm" | EDivZero -> "DivZero" | EDiffComm -> "DiffComm" | EAssertOff -> "AssertOff"
   | _ -> "Other"
 
 let comm_of a = if a = "-" then None else Some (str_of_hex a)
@@ -40,7 +41,7 @@ let show_state = function SUncleared -> "U" | SCleared -> "C" | SPending -> "P"
 let show_kind = function PReal -> "R" | PVirtual -> "V" | PBalVirtual -> "B"
 
 let xpost_of cp xs = function
-  | L [A "post"; acct; A kind; amt; cost; lot; A pstate; assigned] ->
+  | L [A "post"; acct; A kind; amt; cost; lot; A pstate; assigned; _computed] ->
     let a = amt_of false amt in
     let lotp = amt_of true lot in
     let c, full, virt = (match cost, a with
@@ -79,10 +80,21 @@ let show_outcome tag id i = function
 
 let final_pool xs = List.fold_left (fun pl x -> learn_posts pl x) [] xs
 
-let journal ord id bucket (xacts : (pstate * (post * extra) list) list) : string list =
+(* the amounts of a transaction that were PARSED (they teach the pool): written posting amounts and assigned
+   amounts, not the amount computed for a balance assignment *)
+let learn_view (l : ((post * extra) * bool) list) : post list =
+  List.concat (List.map (fun ((p, e), computed) ->
+      (if computed then [] else [p]) @
+      (match e.e_assigned with
+       | Some a -> [{ p with p_amt = Some { a with akeep = false }; p_cost = None }]
+       | None -> [])) l)
+
+let journal ord id bucket (xacts0 : (pstate * (post * extra) list * bool list) list) : string list =
+  let xacts = List.map (fun (s, l, _) -> (s, l)) xacts0 in
   let xs = List.map (fun (_, l) -> List.map fst l) xacts in
-  let outs = run_journal ord bucket [] xs in
-  let cp = cp_of (final_pool xs) in
+  let lxs = List.map (fun (_, l, c) -> learn_view (List.combine l c)) xacts0 in
+  let outs = run_journal_l ord bucket [] (List.combine lxs xs) in
+  let cp = cp_of (final_pool lxs) in
   let out = ref [] in
   let emit s = out := s :: !out in
   List.iteri (fun i o -> emit (show_outcome "X" id i o)) outs;
@@ -101,8 +113,13 @@ let journal ord id bucket (xacts : (pstate * (post * extra) list) list) : string
   let cp0 _ = Z0 in
   let re = List.map (fun (i, xst, ls) -> (i, xst, reread cp0 xst ls)) printed in
   let rxs = List.map (fun (_, _, l) -> List.map fst l) re in
-  let routs = run_journal ord None [] rxs in
-  let rcp = cp_of (final_pool rxs) in
+  let rlxs = List.map (fun (_, _, l) -> learn_view (List.map (fun x -> (x, false)) l)) re in
+  (* every amount of the printed text is written and every `= A` is an assertion: the journal loop of Model/Assert.v
+     (pool learning posting by posting, assertions on the running account totals, display-zero test) *)
+  let routs = run_journal_a ord false [] []
+      (List.map (fun (_, _, l) -> List.map (fun (p, e) -> { w_post = p; w_assigned = e.e_assigned }) l) re) in
+  ignore rxs;
+  let rcp = cp_of (final_pool rlxs) in
   List.iter2 (fun (i, xst, l) o ->
       emit (show_outcome "R" id i o);
       (match o with
@@ -121,7 +138,10 @@ let handle line =
     let bucket = (match atom b with "-" -> None | h -> Some (str_of_hex h)) in
     let cp0 _ = Z0 in
     let xs = List.map (function
-        | L (A "xact" :: A xst :: ps) -> let s = state_of xst in (s, List.map (xpost_of cp0 s) ps)
+        | L (A "xact" :: A xst :: ps) ->
+          let s = state_of xst in
+          (s, List.map (xpost_of cp0 s) ps,
+           List.map (function L l -> (match List.rev l with c :: _ -> batom c | [] -> false) | _ -> false) ps)
         | _ -> failwith "xact") xacts in
     let r1 = journal false id bucket xs and r2 = journal true id bucket xs in
     if r1 = r2 then r1 else begin
